@@ -1,7 +1,7 @@
 (** Case evaluation for the C16 correspondence check.  The harness prints the implementation's answers in a
     small term language (the short names below); this file recomputes them with the model and returns the
     indices of the disagreeing cases.  The comparison is syntactic (order-sensitive) on the whole diff tree. *)
-From Dawn Require Import Diff.Model.
+From Dawn Require Import Diff.Model Diff.ModelEnv.
 Open Scope N_scope.
 
 (** the term language of the harness *)
@@ -39,7 +39,8 @@ Inductive eres :=
 Inductive case :=
 | CDiff (a b : value) (exp : res)
 | CEnv (ss : stamp_state) (o n : value) (exp : eres)
-| CKeys (ks : list str).       (* functionEnvKeys as read from the source *)
+| CKeys (ks : list str)        (* functionEnvKeys as read from the source *)
+| CEnvKeys (ks : list str).    (* the keys of a real target's environment, in insertion order *)
 
 Definition list_eqb {T} (eqb : T -> T -> bool) : list T -> list T -> bool :=
   fix go (a b : list T) : bool :=
@@ -142,6 +143,7 @@ Definition check_case (route_size : Z) (c : case) : bool :=
       | _, _ => false
       end
   | CKeys ks => list_eqb str_eqb ks function_env_keys
+  | CEnvKeys ks => list_eqb value_eqb (map VStr ks) unpickled_env_keys
   end.
 
 Definition mismatches (route_size : N) (cs : list (N * case)) : list N :=
